@@ -526,7 +526,7 @@ def cfg_search(repo, prop, tier, seed=1):
     fcntl.flock(lockf, fcntl.LOCK_EX)
     try:
         count = 2000000 if tier == "thorough" else 100000
-        res = {"what": "bounded replay of C17 on the real `des-net-utils` crate (Cfg::new = compartmentalize, Cfg::capture_for = Props::update_from, Props::set / keys / get_raw): %d seeded random scenarios: a module path of depth 1..4 over the names a, ab, abc, b, bob, n, n\u00e9, x1 (siblings that are textual prefixes of each other, one non-ASCII), a flat configuration of 1..7 entries whose keys are derived from the path (same depth or off by one; every segment kept, replaced by a sibling name or by <any>) followed by one of the property names x, y, addr, x.y, b; in every third scenario a second configuration is captured into the same Props afterwards. The keys and values the module ends up with are compared with the property statement read literally (key = path, each segment literal or <any>, then the name): no foreign name, every addressed name present, the value that of some addressing entry, no panic" % count,
+        res = {"what": "bounded replay of C17 on the real `des-net-utils` crate (Cfg::new = compartmentalize, Cfg::capture_for = Props::update_from, Props::set / keys / get_raw): %d seeded random scenarios: a module path of depth 1..4 over the names a, ab, abc, b, bob, n, n\u00e9, x1 (siblings that are textual prefixes of each other, one non-ASCII), a flat configuration of 1..7 entries whose keys are derived from the path (same depth or off by one; every segment kept, replaced by a sibling name or by <any>) followed by one of the property names x, y, addr, x.y, b; in every third scenario a second configuration is captured into the same Props afterwards; in every fifth the module wrote a typed (i64) property of one of the names BEFORE the configuration arrived (it must keep value and type: reading it as String stays an error); entries up to two levels deeper than the module (compartments of wildcard entries for its descendants). The keys and values the module ends up with are compared with the property statement read literally (key = path, each segment literal or <any>, then the name): no foreign name, every addressed name present, the value that of some addressing entry, no panic" % count,
                "bound": "%d random scenarios; seed %d" % (count, seed), "labelled": "bounded", "counts_as_proof": False}
         exe, err = _build_rt(repo, "cfg_driver")
         if exe is None:
@@ -577,7 +577,7 @@ def ndl_search(repo, prop, tier, seed=1):
     fcntl.flock(lockf, fcntl.LOCK_EX)
     try:
         count = 1000000 if tier == "thorough" else 40000
-        res = {"what": "bounded replay of the totality half of C18 on the real `des-net-utils` crate: %d seeded descriptions generated from one NDL template (an interface, leaf types with gates and a gate cluster, inheritance, a generic type with one bound, a composite with two submodule clusters of size 2..4, cluster-to-cluster / indexed / atom connections, a link, an entry type using the generic type with a conforming argument) of which three quarters carry ONE mutation out of 24 (closing bracket without opening bracket in a gate and in a submodule name, unknown type / gate / link / entry / inherit / bound, index out of bounds on a submodule cluster and on a gate cluster, zero-sized and non-numeric cluster, unequal cluster sizes, dependency cycle, type clause without closing parenthesis in a submodule type and in a module head, malformed generic argument, duplicate generic binding, generic / non-conforming / unknown / missing / surplus / badly separated type arguments). Each text is parsed (serde_yml -> ndl::def::Def) and elaborated (ndl::transform) under catch_unwind: a panic is a mismatch; an unmutated description must elaborate to Ok with the declared number of submodules under the entry module. NOT examined: that the elaborated network and the simulation built from it match the description" % count,
+        res = {"what": "bounded replay of the totality half of C18 on the real `des-net-utils` crate: %d seeded descriptions generated from one NDL template (an interface, leaf types with gates and a gate cluster, inheritance, a generic type with one bound, a composite with two submodule clusters of size 2..4, cluster-to-cluster / indexed / atom connections, a link, an entry type using the generic type with a conforming argument) of which three quarters carry ONE mutation out of 30 (a generic binding used with arguments / as a type argument / as parent inside a generic type, empty connection endpoints, closing bracket without opening bracket in a gate and in a submodule name, unknown type / gate / link / entry / inherit / bound, index out of bounds on a submodule cluster and on a gate cluster, zero-sized and non-numeric cluster, unequal cluster sizes, dependency cycle, type clause without closing parenthesis in a submodule type and in a module head, malformed generic argument, duplicate generic binding, generic / non-conforming / unknown / missing / surplus / badly separated type arguments). Each text is parsed (serde_yml -> ndl::def::Def) and elaborated (ndl::transform) under catch_unwind: a panic is a mismatch; a mutated description must be answered with an error; an unmutated description must elaborate to the network the template denotes (the template also has a child inheriting connections and a gate cluster connected to a path crossing two clusters; submodules, gates and expanded connections with pairing and link parameters are compared). NOT examined: the simulation built from the network; descriptions outside this template" % count,
                "bound": "%d random descriptions; seed %d" % (count, seed), "labelled": "bounded", "counts_as_proof": False}
         exe, err = _build_rt(repo, "ndl_driver")
         if exe is None:
@@ -611,7 +611,7 @@ def ndl_search(repo, prop, tier, seed=1):
         lockf.close()
 
 
-def ndl_replay(repo, text):
+def ndl_replay(repo, text, mutation=None, n=None, has_y=None):
     exe, err = _build_rt(repo, "ndl_driver")
     if exe is None:
         return "not run: " + err
@@ -620,7 +620,50 @@ def ndl_replay(repo, text):
         f.write(text)
         name = f.name
     try:
-        p = subprocess.run([exe, "replay", name], stdout=subprocess.PIPE, stderr=subprocess.PIPE, timeout=60)
+        extra = [str(n), "true" if has_y else "false"] if (mutation == "none" and n is not None) else []
+        p = subprocess.run([exe, "replay", name] + extra, stdout=subprocess.PIPE, stderr=subprocess.PIPE, timeout=60)
         return p.stdout.decode("utf8", "replace").strip()
     finally:
         os.unlink(name)
+
+
+def cfgsim_search(repo, prop, tier, seed=1):
+    """C17 bounded replay at the level of the simulation builder (replay/cfgsim_driver): nodes and include_cfg calls interleaved."""
+    t0 = time.time()
+    os.makedirs(WORK_BASE, exist_ok=True)
+    lockf = open(os.path.join(WORK_BASE, "rt_driver.lock"), "w")
+    fcntl.flock(lockf, fcntl.LOCK_EX)
+    try:
+        count = 300000 if tier == "thorough" else 15000
+        res = {"what": "bounded replay of C17 on the real `des` crate: %d seeded random scenarios: 1..7 nodes (depth 1..3, names a, ab, b, bob, n, x1) and 1..2 flat configurations (1..5 entries addressed to one of the nodes, segments replaced by a sibling name or <any>, names x, y, addr, x.y) added to a Sim in a random interleaving of Sim::node and Sim::include_cfg; every module reports props_keys() and the raw values at start-up; compared per module with the property statement read literally, whatever the order of inclusion and node creation" % count,
+               "bound": "%d random scenarios; seed %d" % (count, seed), "labelled": "bounded", "counts_as_proof": False}
+        exe, err = _build_rt(repo, "cfgsim_driver")
+        if exe is None:
+            res.update({"status": "not_run", "reason": "driver does not build against this tree: " + err, "wall_s": round(time.time() - t0, 2)})
+            return res
+        try:
+            p = subprocess.run([exe, "search", str(count), str(seed)], stdout=subprocess.PIPE, stderr=subprocess.PIPE, timeout=900)
+        except subprocess.TimeoutExpired:
+            res.update({"status": "mismatch", "mismatch": {"mismatch": True, "kind": "cfgsim-does-not-return", "props": "C17", "expected": "every scenario terminates", "observed": "no result within 900 s"}, "wall_s": round(time.time() - t0, 2)})
+            return res
+        line = (p.stdout.decode("utf8", "replace").strip().splitlines() or ["{}"])[-1]
+        try:
+            j = json.loads(line)
+        except Exception:
+            j = {}
+        res["wall_s"] = round(time.time() - t0, 2)
+        res["cmd"] = "cfgsim_driver search %d %d   (built from replay/cfgsim_driver against %s/des)" % (count, seed, repo)
+        if j.get("mismatch"):
+            res.update({"status": "mismatch", "mismatch": j})
+        elif "scenarios" in j:
+            res.update({"status": "no_mismatch", "scenarios": j["scenarios"], "sample": j.get("sample")})
+        else:
+            res.update({"status": "not_run", "reason": "driver crashed: " + p.stderr.decode("utf8", "replace")[-300:]})
+        return res
+    finally:
+        if repo != "/repo" and not os.environ.get("VERIF_KEEP_CACHE"):
+            tag = hashlib.sha1(repo.encode()).hexdigest()[:8]
+            shutil.rmtree(os.path.join(WORK_BASE, "cfgsim_driver-" + tag), ignore_errors=True)
+            shutil.rmtree(os.path.join(WORK_BASE, "des-drivers-target-" + tag), ignore_errors=True)
+        fcntl.flock(lockf, fcntl.LOCK_UN)
+        lockf.close()
